@@ -144,6 +144,52 @@ func checkVersionMatrix(c *fw.Ctx, rule string, fields map[string]bool) *version
 	}
 	redCache := map[string][2]string{}
 	cells := 0
+	// unexported functions may be renamed: per function-valued column, a one-to-one
+	// correspondence between the expected and the registered function names that keeps the
+	// partition of the versions is a renaming, not a different assignment
+	renamed := map[string]map[string]string{} // field -> expected name -> registered name
+	for _, f := range t.fields {
+		if fields != nil && !fields[f] {
+			continue
+		}
+		fwd, bwd := map[string]map[string]bool{}, map[string]map[string]bool{}
+		expNames := map[string]bool{}
+		for _, ver := range t.versions {
+			exp, ok := specCell(ver, f)
+			got := t.cell(ver, f)
+			if !ok || !strings.HasPrefix(exp, "gmsl.") || !strings.HasPrefix(got, "gmsl.") {
+				continue
+			}
+			expNames[exp] = true
+			if fwd[exp] == nil {
+				fwd[exp] = map[string]bool{}
+			}
+			if bwd[got] == nil {
+				bwd[got] = map[string]bool{}
+			}
+			fwd[exp][got] = true
+			bwd[got][exp] = true
+		}
+		m := map[string]string{}
+		okAll := len(fwd) > 0
+		for exp, gots := range fwd {
+			if len(gots) != 1 {
+				okAll = false
+				break
+			}
+			for got := range gots {
+				short := strings.TrimPrefix(got, "gmsl.")
+				exported := len(short) > 0 && short[0] >= 'A' && short[0] <= 'Z'
+				if len(bwd[got]) != 1 || (got != exp && (expNames[got] || exported || c.P.Func(strings.TrimPrefix(exp, "gmsl.")) != nil)) {
+					okAll = false
+				}
+				m[exp] = got
+			}
+		}
+		if okAll {
+			renamed[f] = m
+		}
+	}
 	for _, ver := range t.versions {
 		if !want[ver] {
 			continue
@@ -177,6 +223,10 @@ func checkVersionMatrix(c *fw.Ctx, rule string, fields map[string]bool) *version
 					continue
 				}
 				gotCell = r[0]
+			}
+			if gotCell != exp && renamed[f] != nil && renamed[f][exp] == gotCell {
+				c.Undecided(rule, construct, fmt.Sprintf("the column uses %s where the oracle names %s: the assignment of functions to versions has the specified shape, the function under the new name is not judged", gotCell, exp))
+				continue
 			}
 			c.Check(gotCell == exp, rule, construct, t.rowPos[ver], gotCell, fmt.Sprintf("table says %s, the specification assigns %s", gotCell, exp))
 		}
